@@ -80,6 +80,16 @@ def r1(ctx):
             n += 1
         if not sets:
             ctx.bad(R, "cancel:found", c.span, "cannot identify the found flag of cancel")
+        # every way the flag can become true has a removal behind it: a definition that is not the constant `true` (the result of a search:
+        # `any(..)`, `is_some()`) reports the target as found although nothing was taken out of the pool
+        soft = [d for d in c.defs().get(flag, []) if flag is not None and not (d[1] != "term" and d[2]["r"]["k"] == "use" and op_const(d[2]["r"].get("o")) is not None)
+                and not (d[1] != "term" and d[2]["r"]["k"] == "use" and op_place(d[2]["r"].get("o")) is not None and not isinstance(d[2]["r"]["o"].get("k"), str)
+                         and all(x[1] != "term" and x[2]["r"]["k"] == "use" and op_const(x[2]["r"].get("o")) is not None for x in c.defs().get(op_place(d[2]["r"]["o"])["l"], [None]) if x))]
+        pools = {f for bb in rem for f in _fields_of(c, c.term(bb)["args"][0]) if f in (INFL, READY)}
+        okp = pools == {INFL, READY} and not soft
+        ctx.inst(R, "cancel:removes-from-either-pool", okp, (soft[0][2].get("s") if soft else None) or c.span, "a found target is taken out of whichever pool holds it (in flight or matured)" if okp else
+                 "RingState::cancel can report a target as found without taking it out of its pool (" + ("the flag is the result of a search, not set behind a removal" if soft else
+                 f"no removal from {sorted({INFL, READY} - pools)}") + "): a matured, unreaped op that is cancelled still executes on the next drain - the write lands and a second completion is posted for the same user_data")
         pushes = [(bb, t) for bb, t in c.calls(re.compile(r"^std::vec::Vec::push$")) if INFL in _fields_of(c, t["args"][0])]
         fte = []
         for sbb, te, fe, o in guards_on(c, lambda o: o["k"] == "place" and not o["p"].get("p") and o["p"]["l"] == flag):
